@@ -20,7 +20,8 @@ RULE = ("Completed runs of both front ends from the shared end-to-end generator 
         "the list itself equals those reference densities as a multiset. Joint runs whose cost equals the all-pairs formula "
         "(boundary pairs priced) match the signature of known finding KF1. A second family runs single series with 4097..9000 "
         "stacked rows, short regimes and a regime change placed exactly at rows 4096 and 8192. Non-trivial = >=1 label switch "
-        "and (an empty final cluster or >=2 series or more than 4096 stacked rows); distinct by SHA-1 of the case.")
+        "and (an empty final cluster or >=2 series or more than 4096 stacked rows); distinct by SHA-1 of the case."
+        ' Pinned wide-window runs with sensors at 1e6 (log-determinants beyond -745).')
 ASSUMPTIONS = ["cluster association of per-point values comes from reference densities under the final model (hook), not from the list layout",
                "tolerance: relative 1e-9 of the sum of absolute terms (plus the condition-number-aware bound of C05 for densities)"]
 
